@@ -10,6 +10,7 @@ fn snapshot(p: &LFUPolicy) -> (i64, std::collections::BTreeMap<u64, i64>, i64) {
 #[test]
 fn policy_add_respects_contract() {
     if !only("policy_add_respects_contract") { return; }
+    guarded("policy_add_respects_contract", || {
     let mut rng = Rng::new(21);
     for round in 0..iters(400) {
         let max_cost = 4 + rng.below(16) as i64;
@@ -100,4 +101,5 @@ fn policy_add_respects_contract() {
         }
         let _ = p.close();
     }
+    });
 }
